@@ -91,8 +91,8 @@ Theorem later_receive_returns_next_bytes_race_free : forall ls k (into : bool),
 Proof. exact later_receive_returns_next_bytes_race_free_proof. Qed.
 Print Assumptions later_receive_returns_next_bytes_race_free.
 
-(* Endpoint corollary (Conc/SockEndpoint.v: the asynchronous receive loop of AsyncStreamEndpoint / the server request
-   receivers composed with the repaired protocol).  For ANY consumer [S] (next(None) / size to read / next(bytes)) that
+(* Endpoint corollary (Conc/SockEndpoint.v: the asynchronous receive loop of AsyncStreamEndpoint ([latching] = true: _eof_reached) / the
+   server request receivers ([latching] = false) composed with the repaired protocol).  For ANY consumer [S] (next(None) / size to read / next(bytes)) that
    satisfies the C03/C15 interface [consumer_ok_rel] for a frame-by-frame decoding [spec] (independent of how the bytes
    are cut) and keeps a drained consumer drained when asked for its write buffer, and for EVERY sequence of
    recv_packet() calls, read events, EOF, connection loss, cancellation requests, wake-ups and loop iterations:
@@ -100,13 +100,13 @@ Print Assumptions later_receive_returns_next_bytes_race_free.
    was cancelled, the j-th event ever received is the j-th frame of the stream; the consumer has been fed exactly the
    bytes the transport returned; and those plus the parked bytes are the delivered stream (tail only with an error). *)
 Theorem recv_packet_no_loss :
-  forall (P C : Type) (S : smachine P C) (into : bool) (spec : bytes -> list (nres P)) (G : bytes -> Prop)
+  forall (P C : Type) (S : smachine P C) (into latching : bool) (spec : bytes -> list (nres P)) (G : bytes -> Prop)
          (R : C -> bytes -> nat -> Prop) (D : C -> bytes -> Prop),
     consumer_ok_rel (to_machine S) spec G R D ->
     (forall c d c1 room, D c d -> sroom S c = Some (c1, room) -> D c1 d) ->
     forall (c0 : C) (ls : list elabel),
       R c0 [] 0 ->
-      let es := erun S into (einit c0) ls in
+      let es := erun S into latching (einit c0) ls in
       G (delivered (sk es)) ->
       (exists rest, spec (delivered (sk es)) = events es ++ rest) /\
       (einrecv es = false -> R (ec es) (returned (sk es)) (length (events es))) /\
@@ -120,9 +120,9 @@ Print Assumptions recv_packet_no_loss.
 Theorem recv_packet_no_loss_read_until :
   forall (P : Type) (sep : bytes) (limit : nat) (keep_end : bool) (dec : decoder P) (bufsize : nat),
     sep <> [] -> 0 < bufsize ->
-    forall ls,
+    forall (latching : bool) ls,
       let F := ru_framer sep limit keep_end dec in
-      let es := erun (copy_smachine F bufsize) false (einit (cinit F)) ls in
+      let es := erun (copy_smachine F bufsize) false latching (einit (cinit F)) ls in
       safe sep limit (delivered (sk es)) ->
       exists rest, fst (spec_events sep keep_end dec (delivered (sk es))) = events es ++ rest.
 Proof. exact recv_packet_no_loss_read_until_proof. Qed.
@@ -130,10 +130,10 @@ Print Assumptions recv_packet_no_loss_read_until.
 
 (* non-vacuity: a recv_packet cancelled in the iteration of its read event, then the packet comes out *)
 Example endpoint_cancel_example :
-  events (erun (copy_smachine (ru_framer [10%N] 8 false (fun b => Some b)) 4) false
+  events (erun (copy_smachine (ru_framer [10%N] 8 false (fun b => Some b)) 4) false true
                (einit (cinit (ru_framer [10%N] 8 false (fun b => Some b))))
-               [ERecvPacket; EEnv (LData [97; 98]%N); EEnv LCancel; EEnv LTurn; EEnv LWake;
-                EEnv (LData [10; 99; 10]%N); ERecvPacket; EEnv LTurn; EEnv LWake])
+               [ERecvPacket; ESock (LData [97; 98]%N); ESock LCancel; ESock LTurn; ESock LWake;
+                ESock (LData [10; 99; 10]%N); ERecvPacket; ESock LTurn; ESock LWake])
   = [RPkt [97; 98]%N].
 Proof. vm_compute. reflexivity. Qed.
 
